@@ -52,6 +52,7 @@ def analyse(prop, spec, ops, model, impl, crashes):
     disagreements."""
     real, corr = [], []
     fam = collections.Counter()
+    strat = collections.Counter()
     nontrivial = set()
     agreed = 0
     crash_idx = {i: rc for i, rc in crashes}
@@ -148,12 +149,14 @@ def analyse(prop, spec, ops, model, impl, crashes):
                 ok_here = False
         if ok_here:
             agreed += 1
+        if a.get("strat") and a["strat"] != "-":
+            strat[a["strat"]] += 1
         try:
             if int(m.get("steps", "0")) >= 3:
                 nontrivial.add(line)
         except ValueError:
             pass
-    stats = dict(families=dict(fam), distinct_nontrivial=len(nontrivial), agreed=agreed)
+    stats = dict(families=dict(fam), distinct_nontrivial=len(nontrivial), agreed=agreed, strategies=dict(strat))
     return real, corr, stats
 
 
@@ -192,7 +195,7 @@ def run(prop, spec, tier, seed, t0):
         ops = ops + deep
     model = impl = None
     crashes = []
-    real, corr, stats = [], [], dict(families={}, distinct_nontrivial=0, agreed=0)
+    real, corr, stats = [], [], dict(families={}, distinct_nontrivial=0, agreed=0, strategies={})
     variant_errors = []
     if build_error is None and os.path.exists(vlib.DRIVER):
         model, impl, crashes, verrs = vlib.run_grouped(ops)
@@ -262,7 +265,7 @@ def run(prop, spec, tier, seed, t0):
         rule=gens.rule(prop),
         samples=samples or [dict(note="no ops ran")],
         traces_validated_against_impl=stats["agreed"],
-        families=stats["families"], correspondence_disagreements=len(corr),
+        families=stats["families"], strategies_hit=stats.get("strategies", {}), correspondence_disagreements=len(corr),
         executor_crashes=len(crashes), extractor_broken=ex.get("broken", []),
         pins_changed=ex.get("pins_changed", []), generator_tier=gen_tier, search_inputs=searched,
         exhaustive=gens.exhaustive(prop, tier),
